@@ -258,10 +258,40 @@ fn run_elim(case: u64, rng: &mut Rng, ev: &mut Ev) {
 }
 
 fn run_compose(case: u64, rng: &mut Rng, ev: &mut Ev) {
-    let (f, hist) = match tree_with_history(rng, case, ev, false) {
+    let (mut f, mut hist) = match tree_with_history(rng, case, ev, false) {
         Some(x) => x,
         None => return,
     };
+    // 8 %: large weights - f' = s.f and (below) g' = g(./s) with s = 2^17 or 2^20: the composed predicates
+    // and path polytopes then have coefficients and biases of magnitude 1e5 .. 1e6
+    // (the scale is chosen so that no coefficient of the composition exceeds about 2^22: beyond 1e7 .. 1e8 the
+    // LP backend itself becomes unreliable on rows of mixed magnitude - observed, see DESIGN.md L2 - and a
+    // wrong "infeasible" there is the solver's tolerance, which the property exempts)
+    let mut big_scale: Option<f64> = None;
+    if rng.chance(0.08) {
+        let fsn = snap(&f);
+        let fmax = fsn.nodes.values().flat_map(|n| n.mat.iter().flatten().chain(n.bias.iter())).fold(1.0f64, |a, v| a.max(v.abs()));
+        // g's own coefficients are at most ~10
+        let room = (2f64.powi(22) / (fmax * 10.0)).log2().floor() as i32;
+        if room >= 14 {
+            big_scale = Some(2f64.powi(room.min(20)));
+        }
+    }
+    if let Some(sc) = big_scale {
+        let od = match snap(&f).wf_aff(None) {
+            Ok(d) => d,
+            Err(_) => return,
+        };
+        let mut a = gen::Aff::identity(od);
+        for i in 0..od {
+            a.mat[i][i] = sc;
+        }
+        if lib(case, "apply_func (scaling, history)", || f.apply_func(&a.to_lib())).is_err() {
+            return;
+        }
+        hist.push(format!("apply_func(x -> {} x)", sc));
+        ev.inc("compositions_with_large_weights");
+    }
     let fs = snap(&f);
     let out_dim = match fs.wf_aff(None) {
         Ok(d) => d,
@@ -274,7 +304,7 @@ fn run_compose(case: u64, rng: &mut Rng, ev: &mut Ev) {
     cg.p_missing = if rng.chance(0.5) { 0.3 } else { 0.0 };
     cg.p_contra = if rng.chance(0.3) { 0.4 } else { 0.0 };
     cg.allow_leaf_root = true;
-    let g = if rng.chance(0.3) {
+    let g = if big_scale.is_none() && rng.chance(0.3) {
         let row = rng.below(out_dim);
         match rng.below(3) {
             0 => schema::partial_ReLU(out_dim, row),
@@ -282,7 +312,10 @@ fn run_compose(case: u64, rng: &mut Rng, ev: &mut Ev) {
             _ => schema::partial_hard_sigmoid(out_dim, row),
         }
     } else {
-        let gs = gen::spec(rng, &cg);
+        let mut gs = gen::spec(rng, &cg);
+        if let Some(sc) = big_scale {
+            gs.scale_input(sc);
+        }
         gen::build::<2>(&gs, rng, false)
     };
     let gsn = snap(&g);
